@@ -279,6 +279,15 @@ func (f Function) Call(args []cty.Value) (val cty.Value, err error) {
 		defer func() {
 			if val != cty.NilVal {
 				if val.IsKnown() || val.Type() != cty.DynamicPseudoType {
+					// A refinement that is inconsistent with the result (for
+					// example "not null" on a null result) panics; report it
+					// like any other panic in the function's callbacks.
+					defer func() {
+						if r := recover(); r != nil {
+							val = cty.NilVal
+							err = errorForPanic(r)
+						}
+					}()
 					val = val.RefineWith(refineResult)
 				}
 			}
